@@ -12,6 +12,14 @@
      [EWrite] appends one chunk to the byte queue); the goroutine unlocks afterwards
      ([EUnlock]; the peer may read the frame before that).  [cf_lock = false] is the
      counter-model in which session.write takes no lock.
+   - session.go AsyncCall holds the call's own mutex (callCmd.mu) from callCmdMap.Store until
+     it returns, i.e. until session.write has returned and [cmd.stat = <write status>] has been
+     assigned; context.go bindReply takes that mutex, so a reply that arrives while its caller
+     is still inside AsyncCall waits.  The goroutines between their last Write and their
+     return are [e_unlocking] ([Some c]: AsyncCall's goroutine of call [c]); [ERecv] of a REPLY
+     whose call's caller is in there is not enabled; [EUnlock] is the return: it releases the
+     write lock and assigns the write status (OK) to its call ([overwrite]).
+     [cf_callmu = false] is the variant that unlocks the call's mutex right after the Store.
    - the connection: one byte queue per direction.
    - session.go startReadAndHandle + socket.ReadMessage: the reader decodes the head of its
      queue with the byte-exact raw protocol of Model/RawProto.v ([raw_unpack]); it waits when
@@ -75,7 +83,8 @@ Record ep := mkEp {
   e_outbox : list frame_rec;             (* goroutines about to enter session.write *)
   e_lock : bool;                         (* session.writeLock *)
   e_writers : list writer;               (* goroutines inside socket.WriteMessage *)
-  e_unlocking : nat;                     (* goroutines that wrote their frame and have not unlocked yet *)
+  e_unlocking : list (option callrec);   (* goroutines that wrote their frame and have not returned from
+                                            session.write yet; Some c = AsyncCall's goroutine of call c *)
   e_done : list (callrec * result);
   e_seen : list hin;
   e_issued : list callrec;
@@ -83,7 +92,7 @@ Record ep := mkEp {
   e_broken : bool
 }.
 
-Definition ep0 : ep := mkEp 0 [] [] false [] O [] [] [] [] false.
+Definition ep0 : ep := mkEp 0 [] [] false [] [] [] [] [] [] false.
 
 Record state := mkState { st_a : ep; st_b : ep; q_a : bytes; q_b : bytes }.
 Definition init : state := mkState ep0 ep0 [] [].
@@ -104,6 +113,7 @@ Definition with_queue (st : state) (s : side) (q : bytes) : state :=
 
 Record config := mkCfg {
   cf_lock : bool;
+  cf_callmu : bool;
   cf_reg : registry;
   cf_lim : N;
   cf_handler : side -> bytes -> bytes -> list kv -> bytes * list kv * status
@@ -199,13 +209,35 @@ Definition set_broken (e : ep) : ep :=
   mkEp (e_count e) (e_pending e) (e_outbox e) (e_lock e) (e_writers e) (e_unlocking e)
        (e_done e) (e_seen e) (e_issued e) (e_sent e) true.
 
+(* the goroutine that has just written frame [x]: for a CALL frame it is the AsyncCall of the
+   call stored under the frame's sequence number *)
+Definition caller_of (e : ep) (x : frame_rec) : option callrec :=
+  if beqb (m_mtype (fr_msg x)) x01 then pget (e_pending e) (m_seq (fr_msg x)) else None.
+
+(* bindReply would block on the call's mutex: the caller of the call stored under [q] has not
+   returned from AsyncCall yet *)
+Definition caller_inside (e : ep) (q : Z) : bool :=
+  match pget (e_pending e) q with
+  | Some c' => existsb (fun oc => match oc with
+                                  | Some c => N.eqb (c_no c) (c_no c')
+                                  | None => false
+                                  end) (e_unlocking e)
+  | None => false
+  end.
+
+(* AsyncCall's [cmd.stat = <status of the successful write>] *)
+Definition set_ok (r : result) : result :=
+  match r with RReply _ b m => RReply status_zero b m | RLocalErr => RLocalErr end.
+Definition overwrite (c : callrec) (d : list (callrec * result)) : list (callrec * result) :=
+  map (fun cr => if N.eqb (c_no (fst cr)) (c_no c) then (fst cr, set_ok (snd cr)) else cr) d.
+
 (* ---- events: one atomic action of one goroutine ---- *)
 Inductive event :=
 | ECall (s : side) (method args : bytes) (meta : list kv) (codec : byte) (ids : list byte)
 | EPush (s : side) (method args : bytes) (meta : list kv) (codec : byte) (ids : list byte)
 | ELock (s : side) (i : nat) (chunks : list bytes)
 | EWrite (s : side) (j : nat)
-| EUnlock (s : side)
+| EUnlock (s : side) (k : nat)
 | ERecv (s : side).
 
 Definition step (cfg : config) (st : state) (ev : event) : option state :=
@@ -263,7 +295,8 @@ Definition step (cfg : config) (st : state) (ev : event) : option state :=
           | [] =>
               Some (with_ep st1 s
                 (mkEp (e_count e) (e_pending e) (e_outbox e) (e_lock e) others
-                      (S (e_unlocking e)) (e_done e) (e_seen e) (e_issued e) (e_sent e) (e_broken e)))
+                      (caller_of e x :: e_unlocking e) (e_done e) (e_seen e) (e_issued e) (e_sent e)
+                      (e_broken e)))
           | _ =>
               Some (with_ep st1 s
                 (mkEp (e_count e) (e_pending e) (e_outbox e) (e_lock e)
@@ -272,14 +305,15 @@ Definition step (cfg : config) (st : state) (ev : event) : option state :=
           end
       | _ => None
       end
-  | EUnlock s =>
+  | EUnlock s k =>
       let e := ep_of st s in
-      match e_unlocking e with
-      | S n =>
+      match take_nth k (e_unlocking e) with
+      | Some (oc, rest) =>
+          let done := match oc with Some c => overwrite c (e_done e) | None => e_done e end in
           Some (with_ep st s
-            (mkEp (e_count e) (e_pending e) (e_outbox e) false (e_writers e) n (e_done e)
+            (mkEp (e_count e) (e_pending e) (e_outbox e) false (e_writers e) rest done
                   (e_seen e) (e_issued e) (e_sent e) (e_broken e)))
-      | O => None
+      | None => None
       end
   | ERecv s =>
       let e := ep_of st s in
@@ -288,7 +322,9 @@ Definition step (cfg : config) (st : state) (ev : event) : option state :=
         let q := queue st (other s) in
         match raw_unpack (cf_reg cfg) (cf_lim cfg) q with
         | Ok (m, ids, _, rest) =>
-            Some (with_ep (with_queue st (other s) rest) s (dispatch cfg s e m ids))
+            if cf_callmu cfg && beqb (m_mtype m) x02 && caller_inside e (m_seq m)
+            then None                         (* bindReply waits for the call's mutex *)
+            else Some (with_ep (with_queue st (other s) rest) s (dispatch cfg s e m ids))
         | _ =>
             if frame_complete (cf_lim cfg) q then Some (with_ep st s (set_broken e)) else None
         end
